@@ -17,6 +17,59 @@ let read_file p = let ic = open_in_bin p in let n = in_channel_length ic in let 
 let show_req r =
   Printf.sprintf "OK m=%s u=%s v=%s h=[%s] b=%s" (hex_of_bytes r.method0) (hex_of_bytes r.uri) (hex_of_bytes r.version)
     (String.concat ";" (List.map (fun h -> hex_of_bytes h.hname ^ ":" ^ hex_of_bytes h.hvalue) r.headers)) (hex_of_bytes r.body)
+
+(* ---- C19 value trees:  s<hex> b0 b1 i<dec> f<dbg>~<disp> n O(name=V,..) AI<w>(..;..) AF(..) AS(..) AB(..) AN(k) AO(..) ---- *)
+let n_of_dec (t : string) : n =
+  let ten = n_of_int 10 in
+  let r = ref N0 in String.iter (fun c -> r := N.add (N.mul !r ten) (n_of_int (Char.code c - 48))) t; !r
+let signed_of_dec t = if String.length t > 0 && t.[0] = '-' then (true, n_of_dec (String.sub t 1 (String.length t - 1))) else (false, n_of_dec t)
+let parse_jv (src : string) : jv option =
+  let i = ref 0 in let len = String.length src in
+  let peek () = if !i < len then src.[!i] else '\000' in
+  let until stops = let st = !i in while !i < len && not (String.contains stops src.[!i]) do incr i done; String.sub src st (!i - st) in
+  let exception Bad in
+  let eat c = if peek () = c then incr i else raise Bad in
+  let flt () = let t = until ",;)" in match String.index_opt t '~' with None -> raise Bad | Some k -> (bytes_of_string (String.sub t 0 k), bytes_of_string (String.sub t (k + 1) (String.length t - k - 1))) in
+  let list item = eat '('; if peek () = ')' then (incr i; []) else begin
+      let out = ref [] in let go = ref true in
+      while !go do out := item () :: !out; if peek () = ';' then incr i else (eat ')'; go := false) done; List.rev !out end in
+  let width w = match w with "i8" -> I8 | "i16" -> I16 | "i32" -> I32 | "i64" -> I64 | "i128" -> I128 | "u8" -> U8 | "u16" -> U16 | "u32" -> U32 | "u64" -> U64 | "u128" -> U128 | _ -> raise Bad in
+  let rec value () : jv =
+    let c = peek () in incr i;
+    match c with
+    | 's' -> JS (bytes_of_hex (until ",;)"))
+    | 'b' -> let d = peek () in incr i; JB (d = '1')
+    | 'i' -> let (ng, m) = signed_of_dec (until ",;)") in JI (ng, m)
+    | 'f' -> let (d, p) = flt () in JF (d, p)
+    | 'n' -> JNull
+    | 'O' -> eat '('; if peek () = ')' then (incr i; JO []) else begin
+        let out = ref [] in let go = ref true in
+        while !go do let n = until "=" in eat '='; let v = value () in out := (bytes_of_string n, v) :: !out; if peek () = ',' then incr i else (eat ')'; go := false) done;
+        JO (List.rev !out) end
+    | 'A' -> let k = peek () in incr i;
+      (match k with
+       | 'I' -> let w = width (until "(") in JAI (w, list (fun () -> signed_of_dec (until ";)")))
+       | 'F' -> JAF (list (fun () -> eat 'f'; flt ()))
+       | 'S' -> JAS (list (fun () -> eat 's'; bytes_of_hex (until ";)")))
+       | 'B' -> JAB (list (fun () -> let d = peek () in incr i; d = '1'))
+       | 'N' -> eat '('; let t = until ")" in eat ')'; JAN (let rec nat k = if k = 0 then O else S (nat (k - 1)) in nat (int_of_string t))
+       | 'O' -> JAO (list value)
+       | _ -> raise Bad)
+    | _ -> raise Bad in
+  try let v = value () in if !i = len then Some v else None with Bad -> None | Failure _ -> None | Invalid_argument _ -> None
+let rec nat_to_int = function O -> 0 | S k -> 1 + nat_to_int k
+let show_signed (ng, m) = (if ng && m <> N0 then "-" else "") ^ dec_of_n m
+let width_name = function I8 -> "i8" | I16 -> "i16" | I32 -> "i32" | I64 -> "i64" | I128 -> "i128" | U8 -> "u8" | U16 -> "u16" | U32 -> "u32" | U64 -> "u64" | U128 -> "u128"
+let rec show_jv (v : jv) : string =
+  match v with
+  | JS s -> "s" ^ hex_of_bytes s | JB b -> if b then "b1" else "b0" | JI (ng, m) -> "i" ^ show_signed (ng, m) | JF (d, _) -> "f" ^ string_of_bytes d | JNull -> "n"
+  | JO fs -> "O(" ^ String.concat "," (List.map (fun (n, x) -> string_of_bytes n ^ "=" ^ show_jv x) fs) ^ ")"
+  | JAI (w, xs) -> "AI" ^ width_name w ^ "(" ^ String.concat ";" (List.map show_signed xs) ^ ")"
+  | JAF xs -> "AF(" ^ String.concat ";" (List.map (fun (d, _) -> "f" ^ string_of_bytes d) xs) ^ ")"
+  | JAS xs -> "AS(" ^ String.concat ";" (List.map (fun s -> "s" ^ hex_of_bytes s) xs) ^ ")"
+  | JAB xs -> "AB(" ^ String.concat ";" (List.map (fun b -> if b then "1" else "0") xs) ^ ")"
+  | JAN k -> "AN(" ^ string_of_int (nat_to_int k) ^ ")"
+  | JAO xs -> "AO(" ^ String.concat ";" (List.map show_jv xs) ^ ")"
 (* ---- tree construction ---- *)
 let rec insert (nd : node) (path : n list list) (leaf : node) : node =
   match path with
@@ -170,5 +223,11 @@ let () =
     | ["b64d"; h] -> (match decode (bytes_of_hex h) with Some t -> print_endline ("OK " ^ hex_of_bytes t) | None -> print_endline "ERR")
     | ["b64e"] -> print_endline "OK "
     | ["b64d"] -> print_endline "OK "
+    | "jrt" :: t :: _ ->
+      (match parse_jv t with
+       | None -> print_endline "SKIP"
+       | Some v -> (match round_trip v with
+           | None -> print_endline "GENERR"
+           | Some (text, back) -> Printf.printf "T %s | %s flat=%d\n" (hex_of_bytes text) (match back with RtOk b -> "OK " ^ show_jv b | RtErr -> "ERR" | RtPanic -> "PANIC") (if flat_ok v then 1 else 0)))
     | _ -> print_endline "?"
   done with End_of_file -> ()
